@@ -257,7 +257,10 @@ class BaseData:
         if not self.alter.get("checks"):
             self.alter["checks"] = []
         if isinstance(statement["check"]["statement"], list):
-            statement["check"]["statement"] = " ".join(statement["check"]["statement"])
+            statement["check"]["statement"] = " ".join(
+                " = ".join(*item.items()) if isinstance(item, dict) else item
+                for item in statement["check"]["statement"]
+            )
         self.alter["checks"].append(statement["check"])
 
     def append_statement_information_to_table(self, statement: Dict) -> None:
